@@ -382,6 +382,28 @@ fn hexval(b: u8) -> Option<u8> {
     }
 }
 
+static CLOCK_NOW: std::sync::atomic::AtomicU64 = std::sync::atomic::AtomicU64::new(0);
+
+/// The clock of the child process: with VERIF_CLOCK_STEP_NS=<n> every read returns a time n ns after the previous one.
+#[no_mangle]
+pub unsafe extern "C" fn clock_gettime(clk: libc::clockid_t, ts: *mut libc::timespec) -> c_int {
+    if let Some(v) = env(b"VERIF_CLOCK_STEP_NS\0") {
+        let mut step: u64 = 0;
+        for &b in v {
+            if b.is_ascii_digit() { step = step.saturating_mul(10).saturating_add((b - b'0') as u64); }
+        }
+        if step > 0 && !ts.is_null() {
+            let now = CLOCK_NOW.fetch_add(step, std::sync::atomic::Ordering::SeqCst).saturating_add(step);
+            let t = 1_700_000_000_000_000_000u64.saturating_add(now);
+            (*ts).tv_sec = (t / 1_000_000_000) as libc::time_t;
+            (*ts).tv_nsec = (t % 1_000_000_000) as _;
+            log(&[b"clock_gettime served"]);
+            return 0;
+        }
+    }
+    libc::syscall(libc::SYS_clock_gettime, clk, ts) as c_int
+}
+
 /// std's source of hash keys (and nothing else in logos-cli uses it).
 #[no_mangle]
 pub unsafe extern "C" fn getrandom(buf: *mut c_void, len: size_t, flags: c_uint) -> ssize_t {
